@@ -3,6 +3,7 @@ package main
 import (
 	"fmt"
 	"go/token"
+	"sort"
 	"strings"
 
 	"golang.org/x/tools/go/ssa"
@@ -235,4 +236,186 @@ func ruleConvOrdering(c *Ctx, prop string) {
 		}
 	}
 	c.decide(bad == "", "R11", key, firstNonEmpty(badSite, c.pos(dil.Pos())), fmt.Sprintf("%d steps that read the kernel shape all run after the dilation step", len(readers)), bad)
+}
+
+// ---- R11:K7: derived paddings are never negative ---------------------------------------------------
+//
+// Every value stored into a PADS-kind list by a Conv method (the auto_pad derivation, the zero default)
+// must be provably >= 0: padInput builds a zero tensor with that extent, and gorgonia panics on a
+// negative dimension. With stride > kernel extent the ONNX "pad needed" formula is negative, so the
+// derivation needs a clamp.
+func ruleConvPadsNonNeg(c *Ctx, prop string) {
+	oi := c.opByName("Conv")
+	if oi == nil {
+		return
+	}
+	n := 0
+	per := map[string]int{}
+	var fns []*ssa.Function
+	for _, f := range c.libFns {
+		if recvNamed(f) == oi.named && f.Parent() == nil && len(f.Params) > 0 {
+			fns = append(fns, f)
+		}
+	}
+	sort.Slice(fns, func(i, j int) bool { return fname(fns[i]) < fname(fns[j]) })
+	for _, f := range fns {
+		kc := &kindCtx{c: c, recv: f.Params[0], memo: map[ssa.Value]dimKind{}, fn: f,
+			paramKind: map[string]map[int]dimKind{}, retKind: map[string]dimKind{}}
+		for _, b := range f.Blocks {
+			for _, in := range b.Instrs {
+				st, ok := in.(*ssa.Store)
+				if !ok {
+					continue
+				}
+				ia, ok := st.Addr.(*ssa.IndexAddr)
+				if !ok || kc.sliceKind(ia.X, 0) != kPads {
+					continue
+				}
+				n++
+				per[fname(f)]++
+				key := fmt.Sprintf("R11:K7:pads-nonneg:%s#%d", fname(f), per[fname(f)])
+				c.decide(c.nonNegAt(st.Val, b, 0), "R11", key, c.pos(st.Pos()),
+					"the stored padding is provably >= 0",
+					"a padding derived here can be negative (e.g. auto_pad with a stride larger than the kernel extent: (ceil(d/s)-1)*s + k - d < 0): padInput then asks gorgonia for a tensor with a negative dimension, which panics; the derivation must clamp at 0")
+			}
+		}
+	}
+	c.counts["R11.K7.pad_stores"] = n
+	if n < 2 {
+		c.undecided("R11", "R11:K7:floor", "", fmt.Sprintf("only %d stores into a paddings list found in Conv's methods (floor 2)", n))
+	}
+}
+
+// nonNegAt: the integer value v is provably >= 0 when block b executes. Structural: constants, lengths,
+// dominating comparisons, clamps (phi whose edges are each non-negative under that edge's guards),
+// sums/products/quotients of non-negative values, and `a - h` where h is at most a.
+func (c *Ctx) nonNegAt(v ssa.Value, b *ssa.BasicBlock, depth int) bool {
+	if depth > 8 || v == nil {
+		return false
+	}
+	if nonNegExpr(v, 0) {
+		return true
+	}
+	if guardsImplyNonNeg(guardsOf(b), v) {
+		return true
+	}
+	switch x := v.(type) {
+	case *ssa.Phi:
+		pb := x.Block()
+		for i, e := range x.Edges {
+			pred := pb.Preds[i]
+			if guardsImplyNonNeg(edgeGuards(pred, pb), e) {
+				continue
+			}
+			if !c.nonNegAt(e, pred, depth+1) {
+				return false
+			}
+		}
+		return true
+	case *ssa.BinOp:
+		at := x.Block()
+		switch x.Op {
+		case token.ADD, token.MUL:
+			return c.nonNegAt(x.X, at, depth+1) && c.nonNegAt(x.Y, at, depth+1)
+		case token.QUO, token.REM:
+			k, ok := constInt(x.Y)
+			return ok && k > 0 && c.nonNegAt(x.X, at, depth+1)
+		case token.SUB:
+			return c.nonNegAt(x.X, at, depth+1) && c.atMost(x.Y, x.X, depth+1)
+		}
+	case *ssa.Convert:
+		return c.nonNegAt(x.X, x.Block(), depth+1)
+	case *ssa.Call:
+		if bi, ok := x.Common().Value.(*ssa.Builtin); ok && bi.Name() == "max" {
+			for _, a := range x.Common().Args {
+				if c.nonNegAt(a, x.Block(), depth+1) {
+					return true
+				}
+			}
+		}
+	}
+	return false
+}
+
+// guardsImplyNonNeg: one of the conditional edges states v >= k (k >= 0), v > k (k >= -1) or v == k (k >= 0).
+func guardsImplyNonNeg(gs []guard, v ssa.Value) bool {
+	for _, g := range gs {
+		for _, a := range atomsOf(g) {
+			x, y, op := a.x, a.y, a.op
+			if y == v { // k op v  ->  v op' k
+				x, y = y, x
+				switch op {
+				case token.LSS:
+					op = token.GTR
+				case token.LEQ:
+					op = token.GEQ
+				case token.GTR:
+					op = token.LSS
+				case token.GEQ:
+					op = token.LEQ
+				}
+			}
+			if x != v {
+				continue
+			}
+			k, ok := constInt(y)
+			if !ok {
+				continue
+			}
+			switch op {
+			case token.GEQ, token.EQL:
+				if k >= 0 {
+					return true
+				}
+			case token.GTR:
+				if k >= -1 {
+					return true
+				}
+			}
+		}
+	}
+	return false
+}
+
+// atMost: h <= a for a non-negative a: h is a/k (k >= 1), (a+1)/2, a itself, 0, or a phi of such.
+func (c *Ctx) atMost(h, a ssa.Value, depth int) bool {
+	if depth > 8 {
+		return false
+	}
+	if h == a {
+		return true
+	}
+	if k, ok := constInt(h); ok && k == 0 {
+		return true
+	}
+	switch x := h.(type) {
+	case *ssa.Phi:
+		for _, e := range x.Edges {
+			if !c.atMost(e, a, depth+1) {
+				return false
+			}
+		}
+		return len(x.Edges) > 0
+	case *ssa.BinOp:
+		if x.Op != token.QUO {
+			return false
+		}
+		k, ok := constInt(x.Y)
+		if !ok || k < 1 {
+			return false
+		}
+		if x.X == a {
+			return true
+		}
+		// (a + 1) / 2 <= a for a >= 0
+		if s, ok := x.X.(*ssa.BinOp); ok && s.Op == token.ADD && k >= 2 {
+			if one, ok := constInt(s.Y); ok && one == 1 && s.X == a {
+				return true
+			}
+			if one, ok := constInt(s.X); ok && one == 1 && s.Y == a {
+				return true
+			}
+		}
+	}
+	return false
 }
